@@ -592,6 +592,138 @@ func c19CallSites(c *Ctx, prog *load.Program) {
 
 // ssaUpperBound: an upper bound of an unsigned SSA value from its type, masks, shifts, conversions, phis and - for
 // parameters of functions that are only called directly - the arguments at every call site.
+// localArrayBound: arr is a local array (an Alloc of array type, or a slice of one / a MakeSlice) used only through
+// element addresses that are loaded from or stored to; the bound is the largest bound of a stored value.
+func localArrayBound(prog *load.Program, arr ssa.Value, depth int) (uint64, bool) {
+	var roots []ssa.Value
+	switch a := arr.(type) {
+	case *ssa.Alloc:
+		roots = []ssa.Value{a}
+	case *ssa.MakeSlice:
+		roots = []ssa.Value{a}
+	case *ssa.Slice:
+		if al, ok := a.X.(*ssa.Alloc); ok {
+			roots = []ssa.Value{al}
+		} else {
+			return 0, false
+		}
+	default:
+		return 0, false
+	}
+	var m uint64
+	seen := map[ssa.Value]bool{}
+	for len(roots) > 0 {
+		r := roots[0]
+		roots = roots[1:]
+		if seen[r] {
+			continue
+		}
+		seen[r] = true
+		refs := r.Referrers()
+		if refs == nil {
+			return 0, false
+		}
+		for _, u := range *refs {
+			switch x := u.(type) {
+			case *ssa.IndexAddr:
+				if x.X != r {
+					return 0, false
+				}
+				for _, uu := range *x.Referrers() {
+					switch y := uu.(type) {
+					case *ssa.Store:
+						if y.Addr != ssa.Value(x) {
+							return 0, false // the element address itself is stored somewhere
+						}
+						b, ok := ssaUpperBound(prog, y.Val, depth+1)
+						if !ok {
+							return 0, false
+						}
+						if b > m {
+							m = b
+						}
+					case *ssa.UnOp, *ssa.DebugRef:
+					default:
+						return 0, false
+					}
+				}
+			case *ssa.Slice:
+				if x.X != r {
+					return 0, false
+				}
+				roots = append(roots, x)
+			case *ssa.DebugRef:
+			default:
+				return 0, false // escapes (passed to a call, stored, converted, captured)
+			}
+		}
+	}
+	return m, true
+}
+
+// fieldArrayBound: the elements of an array-typed field of a struct type declared in the module are bounded by the
+// largest value stored into that field's elements anywhere in the module, provided every use of the field's address is
+// an element load or store (field-based, flow-insensitive; whole-struct copies carry values that obey the same bound;
+// the zero value is 0).
+func fieldArrayBound(prog *load.Program, fa *ssa.FieldAddr, depth int) (uint64, bool) {
+	pt, ok := fa.X.Type().Underlying().(*types.Pointer)
+	if !ok {
+		return 0, false
+	}
+	st, ok := pt.Elem().Underlying().(*types.Struct)
+	if !ok {
+		return 0, false
+	}
+	if _, isArr := st.Field(fa.Field).Type().Underlying().(*types.Array); !isArr {
+		return 0, false
+	}
+	if nt, isNamed := pt.Elem().(*types.Named); !isNamed || nt.Obj().Pkg() == nil || !load.IsModulePkg(nt.Obj().Pkg().Path()) {
+		return 0, false
+	}
+	var m uint64
+	for _, g := range ModuleFuncs(prog) {
+		for _, b := range g.Blocks {
+			for _, in := range b.Instrs {
+				switch x := in.(type) {
+				case *ssa.FieldAddr:
+					xp, isP := x.X.Type().Underlying().(*types.Pointer)
+					if !isP || x.Field != fa.Field || !types.Identical(xp.Elem(), pt.Elem()) {
+						continue
+					}
+					for _, u := range *x.Referrers() {
+						switch y := u.(type) {
+						case *ssa.IndexAddr:
+							for _, uu := range *y.Referrers() {
+								switch z := uu.(type) {
+								case *ssa.Store:
+									if z.Addr != ssa.Value(y) {
+										return 0, false
+									}
+									bd, ok := ssaUpperBound(prog, z.Val, depth+1)
+									if !ok {
+										return 0, false
+									}
+									if bd > m {
+										m = bd
+									}
+								case *ssa.UnOp, *ssa.DebugRef:
+								default:
+									return 0, false
+								}
+							}
+						case *ssa.UnOp, *ssa.DebugRef:
+							// the whole array read
+						default:
+							return 0, false // sliced, passed on, assigned as a whole
+						}
+					}
+				}
+			}
+		}
+	}
+	return m, true
+}
+
 func ssaUpperBound(prog *load.Program, v ssa.Value, depth int) (uint64, bool) {
 	typeMax := func(t types.Type) (uint64, bool) {
 		if b, ok := t.Underlying().(*types.Basic); ok {
@@ -664,7 +796,19 @@ func ssaUpperBound(prog *load.Program, v ssa.Value, depth int) (uint64, bool) {
 			tighten(m, true)
 		}
 	case *ssa.UnOp:
-		// a load: the element type bounds it (already in typeMax)
+		// a load: the element type bounds it (already in typeMax); an element of a local array (or of a local slice
+		// made in the function) that does not escape is bounded by the largest value ever stored into it (0 initially)
+		if x.Op == token.MUL {
+			if ia, isIA := x.X.(*ssa.IndexAddr); isIA {
+				if m, ok := localArrayBound(prog, ia.X, depth); ok {
+					tighten(m, true)
+				} else if fa, isFA := ia.X.(*ssa.FieldAddr); isFA {
+					if m, ok := fieldArrayBound(prog, fa, depth); ok {
+						tighten(m, true)
+					}
+				}
+			}
+		}
 	case *ssa.Parameter:
 		fn := x.Parent()
 		pi := -1
